@@ -286,6 +286,69 @@ def reuse_stream(rep, rng, n):
                 break
 
 
+def provider_stream(rep, rng, n):
+    """The property quantifies over ARBITRARY CFF and form-factor values: the formula sets can depend on the model only
+    through the values ReH(pt) … ImEt(pt), F1(pt), F2(pt) it reports.  For a theory whose CFFs come from a real model block
+    (hybrid Mellin-Barnes + dispersive, dispersive, Mellin-Barnes — with their own elastic form factors) every term of every
+    formula set must equal the term of the constant-CFF theory fed with exactly those reported values.  (Seeded change
+    C06-10: a formula set that takes its CFFs from `m.cff(pt)` when the model is a Mellin-Barnes one — for the hybrid blocks
+    that is the sea part only.)"""
+    import gepard as g
+    import gepard.fits  # noqa: F401
+    from gepard.constants import Mp2
+    providers = [('hybrid-free-pole/KM15', (g.eff.KellyEFF, g.gpd.PWNormGPD, g.cff.HybridFreePoleCFF), dict(g.fits.par_KM15)),
+                 ('hybrid-free-pole/KM10', (g.eff.DipoleEFF, g.gpd.PWNormGPD, g.cff.HybridFreePoleCFF), dict(g.fits.par_KM10)),
+                 ('hybrid-fixed-pole/KM15', (g.eff.KellyEFF, g.gpd.PWNormGPD, g.cff.HybridFixedPoleCFF), dict(g.fits.par_KM15)),
+                 ('dispersive/KM09a', (g.eff.DipoleEFF, g.cff.DispersionFixedPoleCFF), dict(g.fits.par_KM09a)),
+                 ('mellin-barnes/AFKM12', (g.eff.KellyEFF, g.gpd.PWNormGPD, g.cff.MellinBarnesCFF), dict(g.fits.par_AFKM12))]
+    names = ['ReH', 'ImH', 'ReE', 'ImE', 'ReHt', 'ImHt', 'ReEt', 'ImEt']
+    terms = ['TBH2unp', 'TINTunp', 'TDVCS2unp']
+    worst = 0.0
+    for trial in range(n):
+        label, bases, par = providers[trial % len(providers)]
+        fs = B.FORMULA_SETS[(trial // len(providers)) % len(B.FORMULA_SETS)] if trial < 5 * len(providers) else rng.choice(B.FORMULA_SETS)
+        xB = rng.uniform(0.02, 0.45)
+        Q2 = 10 ** rng.uniform(0.4, 2.0)
+        y = rng.uniform(0.1, 0.8)
+        phi = rng.uniform(0, 2 * math.pi)
+        lam, chg = rng.choice([-1, 1]), rng.choice([-1, 1])
+        tm = g.tmin(Q2, xB, 4 * xB ** 2 * Mp2 / Q2)
+        t = rng.uniform(-0.8, min(tm, -1e-3) - 1e-3)
+        kw = point(xB, y, t, phi, Q2, lam, chg)
+        info = dict(provider=label, set=fs, kinematics=kw, parameters=par)
+        try:
+            th = type('P_' + fs, bases + (getattr(g, fs),), {})()
+            th.parameters.update(par)            # as gepard.fits does (some sets carry keys the blocks do not declare)
+            pt, kin = B.prepared(kw)
+            m = {nm: float(getattr(th, nm)(kin)) for nm in names}
+            m['F1'], m['F2'] = float(th.F1(kin)), float(th.F2(kin))
+            ref = B.theory(fs, m)
+            todo = terms + (['TDVCS2LP', 'TINTLP'] if fs in B.LP_SETS else [])
+            got = {tm_: float(getattr(th, tm_)(kin)) for tm_ in todo}
+            want = {tm_: float(getattr(ref, tm_)(kin)) for tm_ in todo}
+        except Exception as e:
+            if not B.in_real_code(e):
+                raise
+            rep.violation('provider/exception/' + type(e).__name__, '%s with %s raised %r' % (fs, label, e), info)
+            continue
+        rep.case('provider', (label, fs, trial), sample=dict(info, reported=m) if trial < 3 else None)
+        rep.hist('provider.model', label)
+        rep.hist('provider.set', fs)
+        scale = max(abs(want['TBH2unp']), abs(want['TDVCS2unp']), 1e-300)
+        for tm_ in todo:
+            d = abs(got[tm_] - want[tm_]) / max(abs(want[tm_]), 1e-6 * scale, 1e-300)
+            worst = max(worst, d)
+            if d > 1e-9:
+                rep.violation('provider/%s/%s' % (label.split('/')[0], tm_),
+                              '%s of %s with the CFFs of the model block %s is %r, but the same formula set fed with the values that '
+                              'model reports (ReH(pt) … ImEt(pt), F1, F2 = %s) gives %r (relative difference %.3g): the formula set does '
+                              'not see the CFF values the model reports (xB=%.4g, t=%.4g, Q2=%.4g, y=%.4g, phi=%.4g)'
+                              % (tm_, fs, label, got[tm_], {k: round(v, 6) for k, v in m.items()}, want[tm_], d, xB, t, Q2, y, phi),
+                              dict(info, term=tm_, reported=m, got=got[tm_], want=want[tm_]))
+                break
+    rep.coverage['provider_worst_relative_difference'] = worst
+
+
 def run(rep):
     rng = rep.rng
     ok, why = common.lean_side(rep, 'C06')
@@ -295,6 +358,7 @@ def run(rep):
     parity(rep, rng, 60 if quick else 2000)
     reuse_stream(rep, rng, 25 if quick else 600)
     lp_reference(rep, rng, 60 if quick else 2000)
+    provider_stream(rep, rng, 30 if quick else 600)
     for kind, fset, e, v, o, kw, m in broken[:5]:
         if not rep.violations:
             rep.violation('model/%s/%s/%s' % (kind, fset, e), 'translated model and code disagree on %s.%s: code %r model %r' % (fset, e, v, o),
